@@ -24,6 +24,7 @@ type Config struct {
 	Concrete     bool
 	Trace        bool
 	Thorough     bool
+	CrossSolver  string
 }
 
 type HarnessResult struct {
@@ -43,6 +44,9 @@ type HarnessResult struct {
 	Funcs         map[string]bool
 	Intrinsics    map[string]bool
 	Assumptions   map[string]bool
+	CrossAgree    int64 // unsat verdicts confirmed (unsat) by the second solver
+	CrossUnknown  int64 // second solver answered unknown/timeout
+	CrossDisagree int64 // second solver found a model: verdict not trusted
 	Wall          time.Duration
 	PathsTruncated bool
 }
@@ -67,6 +71,7 @@ type Explorer struct {
 	started int
 	res     *HarnessResult
 	stop    bool
+	crossUsed int
 }
 
 func (ex *Explorer) push(tr []int) {
@@ -74,6 +79,30 @@ func (ex *Explorer) push(tr []int) {
 	ex.stack = append(ex.stack, tr)
 	ex.mu.Unlock()
 	ex.cond.Signal()
+}
+
+// crossBudget limits second-solver checks of feasibility prunings (assertion discharges are always cross-checked).
+func (ex *Explorer) crossBudget() bool {
+	if ex.cfg.CrossSolver == "" {
+		return false
+	}
+	ex.mu.Lock()
+	defer ex.mu.Unlock()
+	ex.crossUsed++
+	return ex.crossUsed <= 400
+}
+
+func (ex *Explorer) noteCross(r Result) {
+	ex.mu.Lock()
+	switch r {
+	case Unsat:
+		ex.res.CrossAgree++
+	case Sat:
+		ex.res.CrossDisagree++
+	default:
+		ex.res.CrossUnknown++
+	}
+	ex.mu.Unlock()
 }
 
 func (ex *Explorer) noteUnknown(what string) {
@@ -192,8 +221,8 @@ func Explore(p *Program, fn *ssa.Function, cfg Config) *HarnessResult {
 		wg.Add(1)
 		go func() {
 			defer wg.Done()
-			var s *Solver
-			defer func() { s.Close() }()
+			var s, xs *Solver
+			defer func() { s.Close(); xs.Close() }()
 			for {
 				tr, ok := ex.pop()
 				if !ok {
@@ -210,8 +239,12 @@ func Explore(p *Program, fn *ssa.Function, cfg Config) *HarnessResult {
 						os.Exit(2)
 					}
 				}
+				if cfg.CrossSolver != "" && (xs == nil || xs.dead) {
+					xs.Close()
+					xs, _ = NewSolver(cfg.CrossSolver, 1500)
+				}
 				before := s.Stats
-				pr := ex.runPath(s, tr)
+				pr := ex.runPath(s, xs, tr)
 				d := s.Stats
 				d.Queries -= before.Queries
 				d.Sat -= before.Sat
@@ -229,9 +262,9 @@ func Explore(p *Program, fn *ssa.Function, cfg Config) *HarnessResult {
 	return ex.res
 }
 
-func (ex *Explorer) runPath(s *Solver, prefix []int) (pr *PathResult) {
+func (ex *Explorer) runPath(s, xs *Solver, prefix []int) (pr *PathResult) {
 	s.Reset()
-	m := &Machine{ex: ex, solver: s, prefix: prefix, names: map[string]int{}, ghost: map[string][]value{}, concrete: ex.cfg.Concrete}
+	m := &Machine{ex: ex, solver: s, xsolver: xs, prefix: prefix, names: map[string]int{}, ghost: map[string][]value{}, concrete: ex.cfg.Concrete}
 	pr = &PathResult{Status: "ok", Funcs: map[string]bool{}}
 	m.res = pr
 	i := newInterpreter(ex.prog, m)
